@@ -58,7 +58,7 @@ CentralityMapIs(a, g, FF) ==
   \A F \in {FF} :
   /\ Len(a) = Len(g.nodes)
   /\ {a[i][1] : i \in DOMAIN a} = Names(g)
-  /\ \A i \in DOMAIN a : a[i][1] \in Names(g) => a[i][2] = F[a[i][1]]
+  /\ \A i \in DOMAIN a : a[i][1] \in Names(g) => RatMatches(a[i][2], F[a[i][1]])
 
 (* sanity theorems (module MCPaths): endpoints never count, values >= 0, and on
    unweighted graphs the betweenness values sum to the number of interior
